@@ -442,7 +442,9 @@ class GrammarCoverageFuzzer(GrammarFuzzer):
         self._symbols_seen: Set[str] = set()
         cov = self._max_expansion_coverage(symbol, max_depth)
 
-        if symbol == "<start>":
+        if symbol == "<start>" and max_depth == float("inf"):
+            # With a depth limit (the start symbol may occur on right-hand sides,
+            # too), not all symbols have to be reached.
             assert len(self._symbols_seen) == len(self.grammar)
 
         return cov
